@@ -803,7 +803,7 @@ func (ex *Exec) valueEq(st *State, x, y Value) *Term {
 		return c.False
 	case BigV:
 		if b, ok := y.(BigV); ok {
-			return c.Eq(a.T, b.T)
+			return c.And(c.Eq(a.Neg, b.Neg), c.Eq(a.Mag, b.Mag))
 		}
 	}
 	unsupported("comparison of %T and %T", x, y)
